@@ -673,6 +673,12 @@ func createConnHandler(
 							break
 						}
 					}
+					if inErr == io.EOF {
+						// Forward the client's half-close.
+						if err := clientStream.CloseSend(); err != nil {
+							inErr = err
+						}
+					}
 					wg.Done()
 				}()
 			}
